@@ -97,7 +97,7 @@ fn gen(args: &Args, emit: &mut dyn FnMut(Value)) {
                 "filters": filters.iter().map(|f| f.to_json()).collect::<Vec<_>>(), "cuts": cuts, "flush": flush, "shape": shape}));
             continue;
         }
-        let filters = gen_filters(&mut rng, true, false);
+        let filters = gen_filters_n(&mut rng, true, false, 5);
         let headers = gen_headers(&mut rng);
         let all_single = body.len() <= 120 || rng.chance(1, 4);
         let scheds = gen_scheds(&mut rng, body.len(), all_single, 6);
